@@ -75,6 +75,7 @@ var c17MetaTable = []c17MetaOpt{
 	{"--ghost", []string{"type", "search"}},
 	{"--marker-multi-line", []string{"╻┃╹", "abc"}},
 	{"--gap-line", []string{"-", "="}},
+	{"--tmux", []string{"center", "left,40%", "top,30%", "80%,50%", "right,20,border-native", "bottom,100%,10"}},
 	// a value that begins with a base scheme replaces the whole theme, so the earlier occurrence leaves no trace
 	{"--color", []string{"dark", "light,fg:red", "16,hl:bold:underline", "bw", "dark,fg:regular:blue,bg:-1", "light,hl+:#ff00ff:italic,fg:underline",
 		"bw,fg:bold", "16,fg:regular"}},
